@@ -169,8 +169,12 @@ theorem raise_clean_over {v : SV} {h : Instr} {rest : List Instr} {k : Kind} (hc
     · exact absurd rfl hk
   · rw [h0]; rfl
 
-theorem match_step {P : Prog} {v v' : SV} {evs : List Tr} (hP : ScreenOnly P) (hb : Basic v) (hi : MatchInv v)
-    (hs : SStepE P v evs v') (hcl : v'.clean = true) : MatchInv v' := by
+/-- the step lemma of the counting invariant, with the treatment of a raised exception left to the
+caller (`hraise`) -/
+theorem match_step_core {P : Prog} {v v' : SV} {evs : List Tr} (hP : ScreenOnly P) (hb : Basic v) (hi : MatchInv v)
+    (hs : SStepE P v evs v')
+    (hraise : ∀ {h : Instr} {rest : List Instr} {k : Kind}, v.code = h :: rest → h.canRaise k = true →
+      v' = raisedSV k { v with code := rest } → MatchInv v') : MatchInv v' := by
   rcases hi with ho | ⟨hf, hsc, heq⟩
   · exact .inl (over_step ho hs)
   have hch := hb.chained
@@ -193,7 +197,7 @@ theorem match_step {P : Prog} {v v' : SV} {evs : List Tr} (hP : ScreenOnly P) (h
     refine .inr ⟨hf, hsc.tail, ?_⟩
     rw [pendCloses_cons_free _ hfree, pendOpens_cons_free _ hfree] at heq
     exact heq
-  | raise hc hr => exact .inl (raise_clean_over hch hc hr hcl)
+  | raise hc hr => exact hraise hc hr rfl
   | kill _ => exact .inl rfl
   | forceQuit hc =>
     have := hsc _ (by rw [hc]; exact List.mem_cons_self ..)
@@ -309,6 +313,13 @@ theorem match_step {P : Prog} {v v' : SV} {evs : List Tr} (hP : ScreenOnly P) (h
     · show _ + pendCloses (List.dropWhile _ _) = _ + pendOpens (List.dropWhile _ _)
       rw [identSkip_chained hch]
       exact heq
+
+/-- … when no exception escaped: a raise ends the run -/
+theorem match_step {P : Prog} {v v' : SV} {evs : List Tr} (hP : ScreenOnly P) (hb : Basic v) (hi : MatchInv v)
+    (hs : SStepE P v evs v') (hcl : v'.clean = true) : MatchInv v' :=
+  match_step_core hP hb hi hs fun hc hr hv => by
+    subst hv
+    exact .inl (raise_clean_over hb.chained hc hr hcl)
 
 theorem match_init {c0 : Cfg} (init : List Act) (handlers : List (Cls × HRef × Option Nat)) (quitCb : Option Nat)
     (stdin : List Str) (hc0 : c0 = initCfg init handlers quitCb stdin) (hi : InitScreenOnly c0) : MatchInv c0.sv := by
